@@ -444,6 +444,34 @@ func TestC09(t *testing.T) {
 			break
 		}
 	}
+	// large requests (more ids than any batching a handler might do internally): one request is one
+	// transaction, however many ack ids it carries
+	if ok {
+		// (quick tier: just above a batch of 500, acknowledgement only; thorough: 1200 ids, zero deadline too)
+		big := 520
+		if Tier() == "thorough" {
+			big = 1200
+		}
+		cfg := &SubCfg{Topic: "t", TTL: 3600 * Sec, MTTL: 600 * Sec}
+		var msgs []MsgSpec
+		var refs []Ref
+		for i := 0; i < big; i++ {
+			msgs = append(msgs, MsgSpec{N: 5000 + i})
+			refs = append(refs, Ref{N: 5000 + i, Sub: "big"})
+		}
+		bigPrefix := []Op{{K: "create_topic", Topic: "t"}, {K: "create_sub", Sub: "big", Cfg: cfg}, {K: "publish", Topic: "t", Msgs: msgs},
+			{K: "advance", D: int64(time.Millisecond)}, {K: "pull", Sub: "big", Max: big}, {K: "advance", D: Sec}}
+		for i, tg := range []faultTarget{
+			{"ack-many-ids-handler", Op{K: "ack", Refs: refs, Via: "handler"}},
+			{"modack-zero-many-ids-handler", Op{K: "delay", Refs: refs, D: 0, Via: "handler"}},
+		} {
+			if !ok || (i > 0 && Tier() != "thorough") {
+				break
+			}
+			st.Distinct(tg.name)
+			ok = scan(Seed(), bigPrefix, tg)
+		}
+	}
 	// generated states: the last operations of random histories, each scanned in the state its history reached
 	nh, tail := 1, 4
 	if Tier() == "thorough" {
